@@ -1073,6 +1073,9 @@ func runC03(c *Ctx) {
 	}
 	x.fromCBE(mdocs, "one-media", 1)
 
+	// ---- 3a. the witness of the open finding the model refutes the property with (Props/C03.v C03_refuted_nan_payload)
+	x.fromCBE([][]byte{cbeDoc(0x7f, 0x91, 1, 0, 0xc0, 0x7f)}, "open-finding-witness", 1)
+
 	// ---- 3b. identifiers over the class-boundary code points, in all four positions
 	idocs := [][]byte{}
 	stepR := c.Pick(3, 1)
@@ -1126,7 +1129,7 @@ func runC03(c *Ctx) {
 	gdocs := [][]byte{}
 	adocs := [][]byte{}
 	texts := [][]byte{}
-	n := c.Pick(260, 6000)
+	n := c.Pick(220, 6000)
 	for i := 0; i < n; i++ {
 		es := g.Document()
 		if d := c03EncodeValid(es); d != nil {
@@ -1149,7 +1152,7 @@ func runC03(c *Ctx) {
 
 	// ---- 5. byte mutations of accepted documents
 	muts := [][]byte{}
-	for i := 0; i < c.Pick(700, 15000) && len(acc) > 0; i++ {
+	for i := 0; i < c.Pick(500, 15000) && len(acc) > 0; i++ {
 		base := acc[c.Rng.Intn(len(acc))]
 		if len(base) > 600 {
 			continue
@@ -1179,7 +1182,7 @@ func runC03(c *Ctx) {
 	}
 	tg := &c02Text{r: c.Rng, kinds: map[string]int{}}
 	gtexts := [][]byte{}
-	for i := 0; i < c.Pick(600, 12000); i++ {
+	for i := 0; i < c.Pick(450, 12000); i++ {
 		tg.bad = i%8 == 7
 		doc := []byte(tg.document())
 		gtexts = append(gtexts, doc)
@@ -1189,7 +1192,7 @@ func runC03(c *Ctx) {
 		tg.bad = false
 		x.fromCTE([]byte("c0 "+tg.scalar()), "grammar-scalar", i%c.Pick(4, 4) == 0)
 	}
-	for i := 0; i < c.Pick(400, 8000); i++ {
+	for i := 0; i < c.Pick(300, 8000); i++ {
 		var base []byte
 		if i%2 == 0 && len(texts) > 0 {
 			base = texts[c.Rng.Intn(len(texts))]
@@ -1247,6 +1250,18 @@ func replayC03(r *Replay) (bool, string) {
 		out, derr := c02Decode(append(append([]byte("c0\n&"), id...), []byte(":null")...), false)
 		lexed := derr == nil && len(out) == 5 && out[2].K == "mk" && bytes.Equal(out[2].Data, id)
 		return rulesOK >= 0 || lexed, fmt.Sprintf("identifier %q: validator accepts=%v, CTE reads it back=%v", id, rulesOK < 0, lexed)
+	case "media":
+		b, err := hex.DecodeString(r.Input["mt_hex"])
+		if err != nil {
+			return false, "bad replay input"
+		}
+		mt := string(b)
+		rulesOK, _, _ := runRules(defaultRulesCfg(), []Ev{{K: "bd"}, {K: "v", N: 0}, {K: "media", S: mt, Data: []byte{1}}, {K: "ed"}})
+		out, derr := c02Decode([]byte("c0\n@"+mt+"[01]"), false)
+		lexed := derr == nil && len(out) == 4 && out[2].K == "media" && out[2].S == mt
+		return rulesOK >= 0 || lexed, fmt.Sprintf("media type %q: validator accepts=%v, CTE reads it back=%v", mt, rulesOK < 0, lexed)
+	case "tie":
+		return false, "consistency check between the harness's naming predicates and the implementation; re-run the check"
 	}
 	return false, "unknown replay kind " + r.Kind
 }
